@@ -810,17 +810,17 @@ def structuralKids (j : JV) : List JV :=
   (match j.get? "additionalProperties" with | some (.obj kvs) => [.obj kvs] | _ => [])
 
 /-- is there a path of `edges` (through schemas satisfying `through`) from `j` back to a schema on the path? -/
-def cycleFrom (b : Built) (edges : JV → List JV) (through : JV → Bool) : Nat → Nat → JV → List String → Bool
+def cycleFrom (b : Built) (kind : Kind) (edges : JV → List JV) (through : JV → Bool) : Nat → Nat → JV → List String → Bool
   | 0, _, _, _ => false
   | fuel + 1, doc, j, onPath =>
-    match derefJson b .schema 20 doc j with
+    match derefJson b kind 20 doc j with
     | none => false
     | some (d, v) =>
       if !through v then false
       else
         let key := render v
         if onPath.contains key then true
-        else (edges v).any (fun c => cycleFrom b edges through fuel d c (key :: onPath))
+        else (edges v).any (fun c => cycleFrom b kind edges through fuel d c (key :: onPath))
 
 /-- all schemas reachable from `j` (any keyword), as (document, value) -/
 def reachSchemas (b : Built) : Nat → List (Nat × JV) → List (Nat × JV × String) → List (Nat × JV × String)
@@ -855,7 +855,32 @@ def allEdges (j : JV) : List JV := compositionKids j ++ structuralKids j
 def compositionCycle (b : Built) (ps : List Pos) : Bool :=
   (match b.ds.root.get? "openapi" with | some (.str v) => !v.isEmpty | some (.num _) => true | some (.bool _) => true | _ => false) &&
   (valueValidated ps).any (fun s =>
-    (reachSchemas b 200 [(0, s)] []).any (fun r => cycleFrom b compositionKids (fun _ => true) 40 r.1 r.2.1 []))
+    (reachSchemas b 200 [(0, s)] []).any (fun r => cycleFrom b .schema compositionKids (fun _ => true) 40 r.1 r.2.1 []))
+
+/-- `(*T).Validate` goes on only when `openapi` is a non-empty string (a number or boolean there is one after
+    the YAML fallback of `unmarshal`) -/
+def openapiSet (root : JV) : Bool :=
+  match root.get? "openapi" with | some (.str v) => !v.isEmpty | some (.num _) => true | some (.bool _) => true | _ => false
+
+/-- the headers `(*Header).Validate` descends into: `content.*.encoding.*.headers.*` (since 78418b3
+    `MediaType.Validate` validates its encodings, and since cbb0d05 their header references are resolved) -/
+def headerKids (j : JV) : List JV :=
+  (objEntries j "content").flatMap (fun m => (objEntries m.2 "encoding").flatMap (fun e => (objEntries e.2 "headers").map (·.2)))
+
+/-- the tests of `(*Header).Validate` before it validates its content: no `name`, no `in`, no schema,
+    exactly one media type -/
+def headerReachesContent (v : JV) : Bool :=
+  (match v.getNN? "name" with | some (.str s) => s.isEmpty | some _ => false | none => true) &&
+  (match v.getNN? "in" with | some (.str s) => s.isEmpty | some _ => false | none => true) &&
+  (v.getNN? "schema").isNone && (objEntries v "content").length == 1
+
+/-- exclusion predicate `HeaderCycle`: a header that is (through `$ref`s) one of the headers of an encoding
+    of its own content — `Header.Validate → Content.Validate → MediaType.Validate → Encoding.Validate →
+    HeaderRef.Validate → Header.Validate` has no visited set -/
+def headerCycle (b : Built) (ps : List Pos) : Bool :=
+  openapiSet b.ds.root &&
+  ps.any (fun p => p.ty == .ptr (.struct "HeaderRef") && !p.j.isNull &&
+    cycleFrom b .header headerKids headerReachesContent 24 0 p.j [])
 
 /-! ### InternalizeRefs: where `DefaultRefNameResolver` meets a reference without location
 
@@ -1218,14 +1243,18 @@ def outcome (cfg : Cfg) (ds : Docs) : Outcome :=
   let load := b.load
   let loadPanics := match load with | .panic _ => true | _ => false
   let hit : Option IHit := match load with | .ok st => internalizeHit b st | _ => none
-  let cComp := (match load with | .ok _ => true | _ => false) && compositionCycle b (docPositions ds.root)
+  let ps := docPositions ds.root
+  let cComp := (match load with | .ok _ => true | _ => false) && compositionCycle b ps
+  let cHdr := (match load with | .ok _ => true | _ => false) && headerCycle b ps
   -- the document is serialised again only when InternalizeRefs returned
   let cCb := match load with | .ok st => hit.isNone && marshalCycle b st | _ => false
   { load := load, hit := hit,
     excl := (if unresolvedHit b hit then ["Unresolved"] else []) ++ (if unwalkedHit b hit then ["UnwalkedRef"] else []) ++
-            (if cComp then ["CompositionCycle"] else []) ++ (if cCb then ["CallbackCycle"] else []),
+            (if cComp then ["CompositionCycle"] else []) ++ (if cHdr then ["HeaderCycle"] else []) ++
+            (if cCb then ["CallbackCycle"] else []),
     abnormal := (if loadPanics then ["load"] else []) ++ (if hit.isSome then ["post"] else []) ++
-                (if cComp then ["crash:visit"] else []) ++ (if cCb then ["crash:marshal"] else []) }
+                (if cComp then ["crash:visit"] else []) ++ (if cHdr then ["crash:validate"] else []) ++
+                (if cCb then ["crash:marshal"] else []) }
 
 /-- the property on one case: every operation returns normally -/
 def specAbnormal : List String := []
